@@ -245,6 +245,14 @@ func C09(c *core.Ctx) {
 					ev.RenderErr = rerr.Error()
 				} else {
 					ev.rendered = string(y1)
+					// rendering is a function of the project: the same project rendered again gives the same bytes, whatever
+					// was rendered in between (here: both formats with the secret contents requested)
+					_, _ = p0.MarshalYAML(types.WithSecretContent)
+					_, _ = p0.MarshalJSON(types.WithSecretContent)
+					if y1b, errb := render(p0); errb != nil || string(y1b) != string(y1) {
+						c.Report(core.Finding{Sig: "rerender-differs:" + format, Detail: fmt.Sprintf("%s (%s, %s): rendering the same project again after a rendering with secret contents gives different bytes (%v): %s", sd.name, vr.name, format, errb, firstDiff(string(y1), string(y1b))),
+							Replay: map[string]interface{}{"document": sd.doc, "variant": vr.name, "format": format}})
+					}
 					p1, err := safeLoad(dir, env, []namedDoc{{Name: filepath.Join(dir, "compose.yaml"), Content: string(y1)}}, vopt)
 					if err != nil {
 						ev.ReloadErr = err.Error()
